@@ -161,6 +161,13 @@ func (r *resolver) enter(d Definition) ([]Definition, error) {
 	if hasCases, valid := d.(*Choice); valid {
 		for _, cident := range hasCases.CaseIdents() {
 			c := hasCases.cases[cident]
+			// a case is a guardable statement too
+			if on, err := checkFeature(c); err != nil {
+				return nil, err
+			} else if !on {
+				delete(hasCases.cases, cident)
+				continue
+			}
 			if _, err := r.addDefinitions(c, c.popDataDefinitions()); err != nil {
 				return nil, err
 			}
